@@ -143,38 +143,64 @@ def _compare_buildable(x: Buildable, y: Buildable, check_dag: bool = False):
     if v1 != v2:
       return False
 
-  # Compare the DAG structure.
-  # The DAG stracture comparison must traverse the whole DAG and sort the
-  # result by path, which is expensive. Thus, we compare values first so
-  # that most unequal cases will not reach the expensive DAG compare step.
-  if check_dag:
-    x_elements = list(
-        daglish.iterate(
-            x,
-            memoized=True,
-            # Not to memorize internables during traversal, as they might
-            # be equal in value but have different object ids.
-            memoize_internables=False,
-            registry=_defaults_aware_traverser_registry,
-        )
-    )
-    y_elements = list(
-        daglish.iterate(
-            y,
-            memoized=True,
-            memoize_internables=False,
-            registry=_defaults_aware_traverser_registry,
-        )
-    )
-    x_paths = sorted([elt[1] for elt in x_elements])
-    y_paths = sorted([elt[1] for elt in y_elements])
+  # Compare the DAG structure. This must traverse the whole DAG, which is
+  # expensive. Thus, we compare values first so that most unequal cases will not
+  # reach this step.
+  if check_dag and not _same_sharing_structure(x, y):
+    return False
 
-    if len(x_paths) != len(y_paths):
-      return False
-    for x_path, y_path in zip(x_paths, y_paths):
-      if x_path != y_path:
+  return True
+
+
+def _same_sharing_structure(x: Buildable, y: Buildable) -> bool:
+  """Returns whether `x` and `y` share sub-objects in the same way.
+
+  `x` and `y` are walked in lockstep (children are matched by path element, so
+  e.g. dict insertion order does not matter), maintaining a one-to-one
+  correspondence between the objects of `x` and the objects of `y`. The DAGs
+  have the same structure iff no object of one side corresponds to two
+  different objects of the other side.
+
+  Internable values are skipped, as they might be equal in value but have
+  different object ids.
+
+  Args:
+    x: A buildable.
+    y: Another buildable, with the same values as `x`.
+  """
+  registry = _defaults_aware_traverser_registry
+  x_to_y = {}
+  y_to_x = {}
+  pinned = []
+  stack = [(x, y)]
+  while stack:
+    x_value, y_value = stack.pop()
+    if daglish.is_internable(x_value) or daglish.is_internable(y_value):
+      continue
+    x_id, y_id = id(x_value), id(y_value)
+    if x_id in x_to_y or y_id in y_to_x:
+      if x_to_y.get(x_id) != y_id or y_to_x.get(y_id) != x_id:
         return False
-
+      continue
+    x_to_y[x_id] = y_id
+    y_to_x[y_id] = x_id
+    # Keep the objects alive, so that their ids cannot be reused by temporaries.
+    pinned.append((x_value, y_value))
+    traverser = registry.find_node_traverser(type(x_value))
+    if traverser is None or type(x_value) is not type(y_value):
+      continue
+    x_children = dict(
+        zip(traverser.path_elements(x_value), traverser.flatten(x_value)[0])
+    )
+    y_children = dict(
+        zip(traverser.path_elements(y_value), traverser.flatten(y_value)[0])
+    )
+    if x_children.keys() != y_children.keys():
+      return False
+    stack.extend(
+        (child, y_children[path_element])
+        for path_element, child in x_children.items()
+    )
   return True
 
 
